@@ -9,7 +9,8 @@ from harness.c08 import mk, diff_key, run_shards, _detuple, KINDS, CFGS
 
 COPY_OPS = ('copy', 'cpath', 'cset', 'cheader')
 HANDLER_KINDS = ['cookies', 'headers', 'status', 'raised', 'errpage', 'crash', 'body', 'empty', 'head', 's204',
-                 'toolarge', 'badjson', 'errjson', 'crashjson', 'copyhdr', 'badmultipart']
+                 'toolarge', 'badjson', 'errjson', 'crashjson', 'copyhdr', 'badmultipart', 'chunked', 'multipart',
+                 'chunkedmp']
 ERROR_KINDS = ['toolarge', 'badjson', 'toolarge', 'badjson', 'badmultipart', 'errjson', 'crashjson', 'crash', 'errpage']
 READBACK = [('path',), ('rdstatus',), ('query', 'q'), ('rdhdr', 'X-Own'), ('cookie', 'c'), ('method',)]
 
@@ -125,8 +126,8 @@ THREAD_ARR = ['serve', 'construct', 'copy', 'nested', 'default-nested', 'three',
 def gen_threads(rng, idx):
     """two or three threads, different applications: (name, case)"""
     kind = THREAD_ARR[idx % len(THREAD_ARR)]
-    ka = rng.choice(['status', 'cookies', 'headers', 'raised', 'errpage', 'body'])
-    kb = rng.choice(['status', 'cookies', 'headers', 'raised', 'errpage', 'body'])
+    ka = rng.choice(['status', 'cookies', 'headers', 'raised', 'errpage', 'body', 'chunked', 'multipart'])
+    kb = rng.choice(['status', 'cookies', 'headers', 'raised', 'errpage', 'body', 'chunkedmp', 'multipart'])
     a = rng.choice([0, 1])
     ra = with_ops(req_for(a, 1, ka, 1), own_marks(1), READBACK)
     if kind == 'serve':
@@ -337,10 +338,10 @@ class C10(Check):
     def _jobs(self, rng, n):
         seed = rng.randrange(1 << 30)
         jobs = []
-        nsingle = 270 * n
+        nsingle = 180 * n
         for lo in range(0, nsingle, 20):
             jobs.append(('single', seed, lo, lo + 20))
-        nthr = 27 * n
+        nthr = 18 * n
         for i in range(nthr):
             jobs.append(('threads', seed, i, i + 1))
         return jobs
